@@ -39,6 +39,8 @@ AlphaOf(f) == [tn \in AllTypeNames |-> IF tn \in DOMAIN f THEN f[tn] ELSE {}]
 AlphaBasic == AlphaOf([Query |-> {"o", "s", "lo"}, T |-> {"s", "o", "d"}])
 AlphaAbstract == AlphaOf([Query |-> {"p", "lp", "u"}, P |-> {"s", "__typename"}, A |-> {"a", "s"}, B |-> {"b", "d"}, C |-> {"c"}, U |-> {"__typename"}])
 AlphaTypeRes == AlphaOf([Query |-> {"p", "lp", "u"}, T |-> {"p"}, P |-> {"__typename", "p"}, A |-> {"a"}, B |-> {"b"}, U |-> {"__typename"}])
+\* a fragment on an interface under a field of an implementing object type ("widening"), then values of the other implementers
+AlphaWiden == AlphaOf([Query |-> {"a", "lp"}, A |-> {"s"}, P |-> {"s"}, B |-> {"b"}])
 AlphaLists == AlphaOf([Query |-> {"lo", "lnn", "nl", "ll", "le", "ls"}, T |-> {"s", "lo", "e"}])
 AlphaArgs == AlphaOf([Query |-> {"f", "g", "o"}, T |-> {"f", "g"}])
 AlphaFrag == AlphaOf([Query |-> {"o", "p"}, T |-> {"s", "o"}, P |-> {"s"}, A |-> {"a"}, B |-> {"b"}])
